@@ -53,6 +53,7 @@ def settle (s : State) : State := if s.park.isSome then s else settleResume s
 def phaseLetter : WPhase → String
   | .atLoader => "L"
   | .inHook _ _ => "H"
+  | .preFinish _ => "F"
   | .blockedTx _ _ _ => "B"
   | .done => "D"
   | .waitStart | .waitFinish | .waitUpdates _ _ => "M"     -- waiting for the (parked) manager
@@ -177,7 +178,9 @@ def toInt (s : String) : Option Int := s.toInt?
 
 /-- static pop order of the harness' comparators -/
 def choosePop (s : State) (npeers : Nat) : Option (Peer × Id) :=
-  let ready := (List.range npeers).filter fun p => let q := getQ s p; q.freeze == 0 && !q.pending.isEmpty
+  let ready := (List.range npeers).filter fun p =>
+    let q := getQ s p
+    q.freeze == 0 && !q.pending.isEmpty && (s.maxActive == 0 || q.active.length < s.maxActive)
   match ready with
   | [] => none
   | p :: _ =>
@@ -313,7 +316,8 @@ def execOp (d : D) (t : Toks) : D × String :=
       | some hook =>
         let cfg : ReqCfg := { pri := pri.toNat, hook, n := n.toNat,
                               miss := if miss < 0 then none else some miss.toNat,
-                              bh := ((t[8]?).getD "").toList.map parseBH }
+                              bh := (((t[8]?).getD "").toList.filter (· != 'F')).map parseBH,
+                              parkFinish := ((t[8]?).getD "").toList.contains 'F' }
         let d1 := { d with nnew := d.nnew + 1, nids := if id.toNat == d.nids then d.nids + 1 else d.nids }
         mgrOp d1 (.recv p.toNat (.new id.toNat cfg))
   | ["cancel", _, _] =>
@@ -389,6 +393,7 @@ def execOp (d : D) (t : Toks) : D × String :=
         match wk.phase with
         | .atLoader => go (setSig d wk.id 0)
         | .inHook _ _ => go d
+        | .preFinish _ => go d
         | _ => (d, "bad")
   | ["net", _, o] =>
     if o != "ok" && o != "fail" then (d, "bad")
@@ -414,7 +419,8 @@ def stepLine (d : D) (t : Toks) : D × String :=
     if t.length < 6 || d.ready then (d, "bad") else
     let np := (natArg t 1).getD 0
     let s0 : State := { limit := (natArg t 2).getD 0, leafLen := (natArg t 3).getD 0,
-                        innerLen := (natArg t 4).getD 0, extLen := (natArg t 5).getD 0 }
+                        innerLen := (natArg t 4).getD 0, extLen := (natArg t 5).getD 0,
+                        maxActive := (natArg t 6).getD 0 }
     let s1 := (List.range np).foldl (fun s p => ensureParked s p) s0
     let (d1, snap) := snapshot { s := s1, ready := true, npeers := np }
     (d1, "ok " ++ snap)
